@@ -240,6 +240,17 @@ class TupleVal:
         return 'Tuple(%r)' % (self.items,)
 
 
+class LambdaVal:
+    """a lambda expression (its AST node); applied symbolically by prelude models of std:: algorithms"""
+    __slots__ = ('node',)
+
+    def __init__(self, node):
+        self.node = node
+
+    def __repr__(self):
+        return 'Lambda@%s' % self.node.get('_line')
+
+
 class Opaque:
     __slots__ = ('name',)
 
